@@ -2,6 +2,7 @@ package main
 
 import (
 	"fmt"
+	"go/token"
 	"go/types"
 	"strings"
 
@@ -185,6 +186,62 @@ func runC06(c *Ctx, r *Report, tier string) {
 		"(*Parser).ParseArgs":   "makeslice[[]string](0)",
 		"(*parseState).addArgs": "append(parseState.retargs(P0), ",
 	})
+	// the bounds compared are the ones declared: every number parsed successfully from the `required` tag is
+	// taken over as it is (0 included: `required:"0-2"` means at least none)
+	if h := c.Fn("(*Command).scanSubcommandHandler$1"); h != nil {
+		for _, fld := range []string{"Required", "RequiredMaximum"} {
+			f := c.Field("Arg", fld)
+			for _, s := range c.storesTo(f) {
+				if !c.actsFor(s.Fn, h) {
+					continue
+				}
+				for _, o := range c.originsOf(s.Store.Val, s.Store) {
+					if !strings.HasPrefix(o.Term, "conv[int](call:strconv.ParseInt(") {
+						continue
+					}
+					// the parse this number comes from
+					var parse *ssa.Call
+					if cv, ok := o.Val.(*ssa.Convert); ok {
+						if ex, ok := c.resolve(cv.X).(*ssa.Extract); ok {
+							parse, _ = ex.Tuple.(*ssa.Call)
+						}
+					}
+					if parse == nil {
+						r.Fail("POSITIONAL", c.fname(h), "Arg."+fld+" taken from the tag", c.ipos(o.At), "origin "+trunc(o.Term, 80)+" is not a direct ParseInt result")
+						continue
+					}
+					base := map[CtlDep]bool{}
+					for _, d := range c.controlDeps(h, parse.Block()) {
+						base[d] = true
+					}
+					var extra []string
+					deps := c.controlDeps(h, o.At.Block())
+					if o.Pred != nil {
+						// the selecting edge itself
+						for si, sb := range o.Pred.Succs {
+							if sb == o.Succ && len(o.Pred.Succs) == 2 {
+								deps = append(deps, CtlDep{o.Pred, si})
+							}
+						}
+					}
+					for _, d := range deps {
+						if base[d] {
+							continue
+						}
+						l, ok := c.edgeLit(d.B, d.Succ)
+						if !ok {
+							continue
+						}
+						if !l.Pos && l.Term == "nonnil("+c.term(parse)+"#1)" {
+							continue // err == nil of this very parse
+						}
+						extra = append(extra, l.String())
+					}
+					r.Check(len(extra) == 0, "POSITIONAL", c.fname(h), "Arg."+fld+" is the number in the tag whenever it parses", c.ipos(o.At), "taken over under `err == nil` only", "the parsed bound is taken over only under "+strings.Join(extra, "; "))
+				}
+			}
+		}
+	}
 	// compared quantities
 	want := map[string]string{
 		"Command.ArgsRequired(": "Command.ArgsRequired(parseState.command(P0))",
@@ -317,6 +374,34 @@ func runC06(c *Ctx, r *Report, tier string) {
 		}
 	}
 
+	// the message names an option the way the user has to spell it: Option.String never prints the bare LongName
+	if os := c.Fn("(*Option).String"); os != nil {
+		bad := 0
+		for _, b := range c.blocks(os) {
+			for _, in := range b.Instrs {
+				u, ok := in.(*ssa.UnOp)
+				if !ok || c.term(u) != "Option.LongName(P0)" || u.Referrers() == nil {
+					continue
+				}
+				for _, ref := range *u.Referrers() {
+					switch x := ref.(type) {
+					case *ssa.BinOp:
+						if x.Op == token.EQL || x.Op == token.NEQ {
+							continue
+						}
+					case *ssa.Call:
+						if c.calleeName(x.Common()) == "len" {
+							continue
+						}
+					case *ssa.DebugRef:
+						continue
+					}
+					bad++
+				}
+			}
+		}
+		r.Check(bad == 0, "RESULT", c.fname(os), "options are named by their namespaced long name", c.pos(os.Pos()), "Option.LongName is only tested, the printed name is LongNameWithNamespace()", fmt.Sprintf("%d uses of the bare LongName as a printed value: an option of a namespaced group is named without its namespace in the message", bad))
+	}
 	// 6. isSet
 	isSet := c.mustField(r, "Option", "isSet")
 	set2 := c.mustFn(r, "(*Option).Set")
